@@ -10,14 +10,22 @@ if [ ! -d $MW ]; then git -C /repo worktree add --detach $MW HEAD >/dev/null 2>&
 git -C $MW checkout -q --detach "$(git -C /repo rev-parse HEAD)" 2>/dev/null
 git -C $MW checkout -q -- . ; git -C $MW clean -fdq -e target
 mkdir -p $MV
-rsync -a --delete --exclude .git --exclude .build/target --exclude .build/run --exclude .build/replays /verif/ $MV/
 if [ -n "${MUT_FROM_HEAD:-}" ]; then
-  # overlay the committed state of /verif (ignores work in progress of concurrently working agents);
-  # -m: fresh mtimes so that cargo rebuilds what differs
-  git -C /verif archive HEAD | tar -x -m -C $MV
+  # the committed state of /verif only (ignores work in progress of concurrently working agents, tracked or
+  # not); build caches (lean/.lake, .build/target*) are kept in the copy / seeded from /verif once.
+  # tar -m: fresh mtimes so that cargo rebuilds whatever differs from the cached build
+  EXP=$MV.export; rm -rf $EXP; mkdir -p $EXP
+  git -C /verif archive HEAD | tar -x -m -C $EXP
+  rsync -a --delete --exclude lean/.lake --exclude .build $EXP/ $MV/
+  rm -rf $EXP
+  if [ ! -d $MV/lean/.lake ]; then cp -r /verif/lean/.lake $MV/lean/.lake 2>/dev/null; fi
+else
+  rsync -a --delete --exclude .git --exclude .build/target --exclude .build/target-hook --exclude .build/run --exclude .build/replays /verif/ $MV/
 fi
 mkdir -p $MV/.build
 if [ ! -d $MV/.build/target ]; then cp -r /verif/.build/target $MV/.build/target 2>/dev/null; fi
+if [ ! -d $MV/.build/target-hook ]; then cp -r /verif/.build/target-hook $MV/.build/target-hook 2>/dev/null; fi
+rm -rf $MV/.build/replays $MV/.build/run
 # relocate paths
 grep -rlE "/verif|/repo" $MV/check $MV/tools $MV/harness/Cargo.toml $MV/harness/.cargo/config.toml $MV/harness/src 2>/dev/null | while read f; do
   sed -i "s#/verif#$MV#g; s#/repo#$MW#g" "$f"
